@@ -8,6 +8,7 @@ import (
 	"os"
 	goruntime "runtime"
 	"strings"
+	"sync"
 	"time"
 
 	zed "github.com/brimdata/super"
@@ -201,12 +202,29 @@ type runResult struct {
 	err error
 }
 
-var runTimeout = 60 * time.Second
+var runTimeout = 120 * time.Second
+
+// isolate: ordinary runs share it; a run that hit the watchdog is repeated
+// alone (no other query of this process in flight) with a longer watchdog
+// before it is called a hang, so that machine load is not reported.
+var isolate sync.RWMutex
+
+func withHangRetry(run func(timeout time.Duration) ([]string, error)) ([]string, error) {
+	isolate.RLock()
+	out, err := run(runTimeout)
+	isolate.RUnlock()
+	if errClass(err) != "HANG" {
+		return out, err
+	}
+	isolate.Lock()
+	defer isolate.Unlock()
+	return run(3 * runTimeout)
+}
 
 // runOver compiles src over reader r (through runtime.CompileQuery, so a
 // zngio.Reader gets the pushed-down filter via zbuf.ScannerAble) and drains it.
 // Panics are caught, a watchdog reports hangs.
-func runOver(src string, zctx *zed.Context, r zio.Reader) ([]string, error) {
+func runOver(src string, zctx *zed.Context, r zio.Reader, runTimeout time.Duration) ([]string, error) {
 	ch := make(chan runResult, 1)
 	ctx, cancel := context.WithTimeout(context.Background(), runTimeout)
 	defer cancel()
@@ -241,6 +259,10 @@ func runOver(src string, zctx *zed.Context, r zio.Reader) ([]string, error) {
 
 // runEnc runs src over data presented through e in a fresh context.
 func runEnc(src string, e Enc, data []byte) ([]string, error) {
+	return withHangRetry(func(timeout time.Duration) ([]string, error) { return runEnc1(src, e, data, timeout) })
+}
+
+func runEnc1(src string, e Enc, data []byte, timeout time.Duration) ([]string, error) {
 	zctx := zed.NewContext()
 	var r zio.Reader
 	var c io.Closer
@@ -252,7 +274,7 @@ func runEnc(src string, e Enc, data []byte) ([]string, error) {
 	if err != nil {
 		return nil, fmt.Errorf("OPEN: %w", err)
 	}
-	out, err := runOver(src, zctx, r)
+	out, err := runOver(src, zctx, r, timeout)
 	if c != nil {
 		Safely(func() error { return c.Close() })
 	}
